@@ -4,6 +4,7 @@ import (
 	"fmt"
 	"math/rand"
 	"os"
+	"os/exec"
 	"path/filepath"
 	"regexp"
 	"strings"
@@ -420,9 +421,45 @@ func runC08(c *core.Ctx) {
 			}
 		}
 	}
+	// who runs the program is not an input either: a user id without an entry in the user database (a container
+	// started with --user 54321), with HOME empty, unset-like, pointing nowhere or at a file; the current
+	// directory unreadable. Every command ends with a report or an error, never with a crash.
+	{
+		udir := filepath.Join(c.Work, "nobody")
+		run.WriteFiles(udir, map[string]string{"food.yaml": "a/b:\n  x: 1\n", "log.yaml": "2021/01/24:\n  a/b: 2\n", "hr.conf": "[Global]\nDateFormat=2006/01/02\n"})
+		drop := []string{"setpriv", "--reuid=54321", "--regid=54321", "--clear-groups"}
+		if exec.Command(drop[0], append(append([]string{}, drop[1:]...), "test", "-r", filepath.Join(udir, "log.yaml"), "-a", "-x", c.HR)...).Run() != nil {
+			c.Count("runs_as_unknown_user_not_available", 1)
+		} else {
+			for _, home := range []string{"", "/nonexistent-verif-home", filepath.Join(udir, "log.yaml"), "relative/home", "/"} {
+				for _, cmd := range [][]string{{"reg"}, {"bal"}, {"stats"}, {"print"}, {"lint", "log.yaml"}, {"csv", "log"}, {"summary", "today"}, {"report", "totals"}, {"--config", "hr.conf", "reg"}, {"--version"}, {"--help"}, {}} {
+					for _, user := range []string{"", "ghost"} {
+						env := map[string]string{"HOME": home, "USER": user, "LOGNAME": user}
+						res := run.Exec(c.HR, cmd, run.ExecOpts{Dir: udir, Env: env, Prefix: drop})
+						c.Eval(1)
+						c.Count("runs_as_a_user_without_passwd_entry", 1)
+						c.Nontrivial("unknown-user", home, user, joinArgs(cmd))
+						if res.Crashed() || res.TimedOut {
+							c.Violation(c08Name(cmd)+"|crash-as-unknown-user", fmt.Sprintf("uid 54321 (no entry in the user database), HOME=%q USER=%q: %s", home, user, clip(res.Serr, 300)), caseDoc{Args: cmd, Env: env, Note: "run through: " + joinArgs(drop), Observed: resDoc(res)})
+						}
+					}
+				}
+			}
+		}
+	}
 	jobs, deaths := pool.Stats()
 	c.Count("l2_jobs", jobs)
 	c.Count("l2_process_deaths", deaths)
 	c.Count("l2_priming_runs", pool.Primed())
 	_ = gen.Half
+}
+
+func c08Name(cmd []string) string {
+	if len(cmd) == 0 {
+		return "(no command)"
+	}
+	if cmd[0] == "--config" && len(cmd) > 2 {
+		return cmd[2]
+	}
+	return cmd[0]
 }
